@@ -428,9 +428,9 @@ def drivers(tier):
     th = tier == 'thorough'
     return [
         dict(kind='machine', name='emitter', machine=EmitterMachine,
-             examples=25000 if th else 2000, steps=40 if th else 30),
+             examples=100000 if th else 6000, steps=40 if th else 30),
         dict(kind='machine', name='reporter', machine=ReporterMachine,
-             examples=25000 if th else 2000, steps=40 if th else 30),
+             examples=100000 if th else 6000, steps=40 if th else 30),
     ]
 
 
